@@ -37,6 +37,12 @@ impl DeltaFront
 /// Exactly the sequence of calls of `delta::test_suite::compile` / `main.rs::compile_to_ir_using_delta`.
 pub fn delta_front(bytes: &[u8], want_xml: bool) -> DeltaFront
 {
+	delta_front_mode(bytes, if want_xml { 7 } else { 0 })
+}
+
+/// `mode` bits: 1 = tree XML, 2 = header XML, 4 = token XML.
+pub fn delta_front_mode(bytes: &[u8], mode: u8) -> DeltaFront
+{
 	let mut out = DeltaFront::default();
 	let tokens = dlex::lex(bytes, "m.pn");
 	out.num_tokens = tokens.base_tokens().len();
@@ -51,7 +57,7 @@ pub fn delta_front(bytes: &[u8], want_xml: bool) -> DeltaFront
 		return out;
 	}
 	let text = std::str::from_utf8(bytes).ok();
-	if want_xml
+	if mode & 4 != 0
 	{
 		if let Some(text) = text
 		{
@@ -73,11 +79,14 @@ pub fn delta_front(bytes: &[u8], want_xml: bool) -> DeltaFront
 	}
 	let header = tree.build_header();
 	out.header_declarations = header.num_declarations();
-	if want_xml
+	if let Some(text) = text
 	{
-		if let Some(text) = text
+		if mode & 1 != 0
 		{
 			out.xml = Some(tree.as_xml(&tokens, text).collect());
+		}
+		if mode & 2 != 0
+		{
 			out.header_xml = Some(header.as_xml(&tokens, text).collect());
 		}
 	}
